@@ -279,6 +279,37 @@ func checkC11(R *Run) {
 		}
 		good := len(sizeSrc) == 2 && len(typeSrc) == 2 && offsets["hotline.GetFileNameList"] && offsets["mobius.HandleGetFileInfo"]
 		R.check(good, "view-agree", "list vs get-info: size and type source", "-", "both use TotalSize() of an offset-0 wrapper and the info fork's TypeSignature", fmt.Sprintf("list and get-info take size/type from different sources (size %v, type %v, offset-0 wrappers %v)", sizeSrc, typeSrc, offsets))
+		// sizes put into the list come from Stat (follows aliases) or from TotalSize, never from the directory entry's own Lstat info
+		if g := P.fn("hotline.GetFileNameList"); g != nil {
+			nSz, badSz := 0, ""
+			for _, ci := range callsIn(g) {
+				c := ci.Common()
+				if putUintWidth(calleeName(c)) != 4 {
+					continue
+				}
+				a := c.Args
+				dstF := ""
+				if sl, ok := a[len(a)-2].(*ssa.Slice); ok {
+					if fa, ok := sl.X.(*ssa.FieldAddr); ok {
+						dstF, _ = fieldOf(fa)
+					}
+				}
+				if dstF != "hotline.FileNameWithInfoHeader.FileSize" {
+					continue
+				}
+				v := stripConv(a[len(a)-1])
+				sz, ok := v.(*ssa.Call)
+				if !ok || !sz.Call.IsInvoke() || sz.Call.Method.Name() != "Size" {
+					continue // a count of children
+				}
+				nSz++
+				src := callValue(sz.Call.Value)
+				if src == nil || calleeName(&src.Call) != "os.Stat" {
+					badSz = P.ipos(ci)
+				}
+			}
+			R.check(nSz > 0 && badSz == "", "view-agree", "hotline.GetFileNameList: alias size", P.pos(g.Pos()), "the size listed for an alias is the Size() of the Stat'ed target", "the size listed for an alias at "+badSz+" is not taken from os.Stat of the target (the directory entry's own info describes the link, not the file): list and get-info/download disagree")
+		}
 		// partial upload listed under its final name
 		if g := P.fn("hotline.GetFileNameList"); g != nil {
 			ok := false
